@@ -48,6 +48,10 @@ def gen_cases(tier, seed):
         npts = shapes[k % len(shapes)]
         nprocs = forced[k % len(forced)]
         cases.append({"kind": "stages", "npts": npts, "nprocs": list(nprocs), "iota": [0.0, 0.8][k % 2], "sched": rng.randrange(1 << 30), "seed": rng.randrange(1 << 30), "cost": 4000})
+    # one point per process in a distributed direction (extent equal to the process count)
+    for nprocs in ([(1, 8), (8, 1)] if tier == "quick" else [(1, 8), (8, 1), (2, 8), (8, 2), (1, 7), (7, 1)]):
+        npts = [8, 8, 8, 8] if 8 in nprocs else [7, 8, 7, 7]
+        cases.append({"kind": "stages", "npts": npts, "nprocs": list(nprocs), "iota": 0.8 if nprocs[0] > 1 else 0.0, "sched": rng.randrange(1 << 30), "seed": rng.randrange(1 << 30), "cost": 9000})
     for k in range(6 if tier == "quick" else 240):
         cases.append({"kind": "init", "npts": shapes[k % len(shapes)], "P": rng.choice([2, 3, 4, 6] if tier == "quick" else [2, 3, 4, 5, 6, 8, 12]),
                       "layout": ["flux_surface", "v_parallel", "poloidal"][k % 3], "seed": rng.randrange(1 << 30), "cost": 300})
